@@ -12,7 +12,9 @@ import (
 )
 
 type Mode struct {
-	Explicit bool // include InfixExpression.Explicit for "+"
+	Explicit      bool // include InfixExpression.Explicit for "+"
+	DropSubParams bool // omit subroutine parameters (classifier of a known codec finding)
+	DropCallArgs  bool // omit `call` statement arguments (classifier of a known codec finding)
 }
 
 type dumper struct {
@@ -192,6 +194,9 @@ func (d *dumper) stmt(s ast.Statement) {
 		d.ident(v.Name)
 		d.b.WriteString(" (params")
 		for _, p := range v.Parameters {
+			if d.m.DropSubParams {
+				break
+			}
 			d.b.WriteString(" (param ")
 			d.ident(p.Type)
 			d.b.WriteString(" ")
@@ -272,7 +277,9 @@ func (d *dumper) stmt(s ast.Statement) {
 	case *ast.CallStatement:
 		d.b.WriteString("(call ")
 		d.ident(v.Subroutine)
-		d.args(v.Arguments)
+		if !d.m.DropCallArgs {
+			d.args(v.Arguments)
+		}
 		d.b.WriteString(")")
 	case *ast.FunctionCallStatement:
 		d.b.WriteString("(fcallstmt ")
